@@ -729,6 +729,14 @@ impl<'a> Parser<'a> {
             let op = self.current().clone();
             self.next()?;
 
+            // A subscript binds tightest and its index is a complete expression up to the closing ']'
+            if op == Token::LeftSquareParentheses {
+                let index = self.parse_expression_internal()?;
+                self.expect_and_consume_token(Token::RightSquareParentheses, ParserErrorType::ExpectedRightSquareParentheses)?;
+                lhs = ParserExpressionTree::new(op_location, ParserExpressionTreeData::ArrayElementAccess { array: Box::new(lhs), index: Box::new(index) });
+                continue;
+            }
+
             let mut rhs = self.parse_unary_operator()?;
             if token_precedence < self.get_token_precedence()? {
                 rhs = self.parse_binary_operator_rhs(token_precedence + 1, rhs)?;
@@ -830,7 +838,7 @@ impl<'a> Parser<'a> {
             Token::Keyword(Keyword::NotIn) => Ok(2),
             Token::Keyword(Keyword::And) => Ok(1),
             Token::Keyword(Keyword::Or) => Ok(0),
-            Token::LeftSquareParentheses => Ok(1),
+            Token::LeftSquareParentheses => Ok(7),
             _ => Ok(-1)
         }
     }
